@@ -1,13 +1,73 @@
 /-
-  `model codec`: decoder / encoder / SHA-256 against the real crates.
+  `model codec`: the model's encoder / decoder / SHA-256 against the real crates, line by line.
+
+    T <older> <newer> <matches a:b:c:d,...> <stream> <sha256 newer>   tool side
+    D <stream> <older> <E | out>                                      decoder on arbitrary streams
+    H <bytes> <sha256>                                                hash only
 -/
 import UpdaterModel.Driver.Proto
 
 namespace Updater.CodecDriver
 open Updater Updater.Proto
 
-def main (_h : IO.FS.Stream) : IO UInt32 := do
-  IO.eprintln "codec mode not built yet"
-  return 2
+def parseMatch (s : String) : Option Match :=
+  match s.splitOn ":" with
+  | [a, b, c, d] => do
+    let a ← a.toNat?; let b ← b.toNat?; let c ← c.toNat?; let d ← d.toNat?
+    pure { addOldStart := a, addNewStart := b, addLength := c, copyEnd := d }
+  | _ => none
+
+/-- Executable version of `TilingFrom`. -/
+def tilingFromB (older newer : Bytes) : Nat → List Match → Bool
+  | np, [] => np == newer.length
+  | np, m :: rest =>
+    m.addNewStart == np && m.addOldStart + m.addLength ≤ older.length && m.copyStart ≤ m.copyEnd &&
+    m.copyEnd ≤ newer.length && tilingFromB older newer m.copyEnd rest
+
+def tilingB (older newer : Bytes) (ms : List Match) : Bool :=
+  (match ms with | [] => true | m :: _ => m.addOldStart == 0) && tilingFromB older newer 0 ms
+
+def handle (parts : List String) : String :=
+  match parts with
+  | ["T", o, n, ms, st, h] =>
+    match decHex o, decHex n, mapM' parseMatch (splitList "," ms), decHex st with
+    | some older, some newer, some mlist, some stream =>
+      let matches_ := mlist
+      let tiling := tilingB older newer matches_
+      let enc := encodePatch older newer matches_
+      let dec := bipatchDecode stream older
+      let sha := hexEncode (sha256 newer)
+      let okEnc := enc == stream
+      let okDec := match dec with | .ok out => out == newer | .error _ => false
+      if tiling && okEnc && okDec && sha == h then "OK T"
+      else s!"DIFF T tiling={tiling} encode={okEnc} decode={okDec} sha={sha == h}"
+    | _, _, _, _ => "BAD T"
+  | ["D", st, o, res] =>
+    match decHex st, decHex o with
+    | some stream, some older =>
+      let dec := bipatchDecode stream older
+      let txt := match dec with | .ok out => encHex out | .error _ => "E"
+      if txt == res then "OK D" else s!"DIFF D model={txt} impl={res}"
+    | _, _ => "BAD D"
+  | ["H", b, h] =>
+    match decHex b with
+    | some bytes => if hexEncode (sha256 bytes) == h then "OK H" else s!"DIFF H model={hexEncode (sha256 bytes)} impl={h}"
+    | none => "BAD H"
+  | _ => "BAD line"
+
+partial def loop (h : IO.FS.Stream) (ok diff bad : Nat) : IO (Nat × Nat × Nat) := do
+  let line ← h.getLine
+  if line.isEmpty then return (ok, diff, bad)
+  let parts := (line.trimAscii.toString.splitOn " ").filter (· ≠ "")
+  if parts.isEmpty then loop h ok diff bad else
+  let r := handle parts
+  if r.startsWith "OK" then loop h (ok + 1) diff bad
+  else if r.startsWith "DIFF" then do IO.println s!"{r} | {(line.trimAscii.toString.take 300)}"; loop h ok (diff + 1) bad
+  else do IO.println s!"{r} | {(line.trimAscii.toString.take 200)}"; loop h ok diff (bad + 1)
+
+def main (h : IO.FS.Stream) : IO UInt32 := do
+  let (ok, diff, bad) ← loop h 0 0 0
+  IO.println s!"STATS ok={ok} diffs={diff} bads={bad}"
+  return 0
 
 end Updater.CodecDriver
